@@ -277,4 +277,19 @@ theorem pipe_poll_sound_nt {α} (T : Tables α) (sub : Nat) :
 
 
 
+/-- a container without `Truncate` is safe for every chain, Sort stages included -/
+theorem sortSafe_of_noTrunc {α} (T : Tables α) (sts : List (Stage α)) : ∀ (ds : List (Diff α)), NoTrunc ds → SortSafe T sts ds := by
+  induction sts with
+  | nil => intro ds _; trivial
+  | cons st outer ih =>
+    intro ds h
+    exact ⟨fun _ => h, fun out st' ho => ih out (onDiffs_noTrunc T st st' ds out h ho)⟩
+
+/-- `chain_sound` for chains with Sort stages, under the simple hypothesis that the container brings no `Truncate` -/
+theorem chain_sound_nt {α} (T : Tables α) (sts : List (Stage α)) (src : List α) (ds : List (Diff α))
+    (hi : ChainInv T sts src) (hv : ValidSeq ds src) (hn : NoTrunc ds) :
+    ∃ out sts' src', chainOnDiffs T sts ds = some (out, sts') ∧ applyAll ds src = some src' ∧ ChainInv T sts' src' ∧
+      applyAll out (chainView T sts src) = some (chainView T sts' src') ∧ ValidSeq out (chainView T sts src) :=
+  chain_sound T sts src ds hi hv (sortSafe_of_noTrunc T sts ds hn)
+
 end EV
